@@ -35,3 +35,19 @@ if a in s and b in s:
     print("DESIGN.md tables regenerated:", len(text), "chars")
 else:
     print(text)
+
+# ---- section 8.1: table of seeded changes, from seeded/*/meta.json
+import glob
+rows = ["| seed | change (written by an independent sub-agent) | needs, to manifest | result |", "|---|---|---|---|"]
+for mf in sorted(glob.glob(os.path.join(V, "seeded", "*", "meta.json"))):
+    m = json.load(open(mf))
+    def cell(x, n):
+        x = " ".join(str(x or "").split()).replace("|", "\\|")
+        return x if len(x) <= n else x[: n - 1] + "…"
+    rows.append(f"| {m['id']} | `{', '.join(os.path.basename(f) for f in (m.get('files_changed') or []))}`: {cell(m.get('summary'), 260)} | {cell(m.get('needs_to_manifest'), 200)} | {cell(m.get('detected'), 420)} |")
+sa, sb = "<!-- AUTO-SEEDS-BEGIN -->", "<!-- AUTO-SEEDS-END -->"
+txt = open(path).read()
+if sa in txt:
+    txt = txt[: txt.index(sa) + len(sa)] + "\n" + "\n".join(rows) + "\n" + txt[txt.index(sb):]
+    open(path, "w").write(txt)
+    print("seed table:", len(rows) - 2, "rows")
